@@ -84,34 +84,36 @@ where
     type Item = Qud<'a, TI>;
 
     fn next(&mut self) -> Option<Self::Item> {
-        let [gi, si, pi, oi] = *self.gspo.next()?;
+        // NB: a loop rather than a tail call, so that skipping any number of
+        // non-matching rows requires a constant amount of stack
+        loop {
+            let [gi, si, pi, oi] = *self.gspo.next()?;
 
-        if gi != self.g.i {
-            self.g.update(gi, self.terms);
-        }
-        if !self.g.b {
-            return self.next();
-        }
+            if gi != self.g.i {
+                self.g.update(gi, self.terms);
+            }
+            if !self.g.b {
+                continue;
+            }
 
-        if si != self.s.i {
-            self.s.update(si, self.terms);
-        }
-        if !self.s.b {
-            return self.next();
-        }
+            if si != self.s.i {
+                self.s.update(si, self.terms);
+            }
+            if !self.s.b {
+                continue;
+            }
 
-        if pi != self.p.i {
-            self.p.update(pi, self.terms);
-        }
-        if !self.p.b {
-            return self.next();
-        }
+            if pi != self.p.i {
+                self.p.update(pi, self.terms);
+            }
+            if !self.p.b {
+                continue;
+            }
 
-        self.o.update(oi, self.terms);
-        if !self.o.b {
-            self.next()
-        } else {
-            Some((self.g.t, [self.s.t, self.p.t, self.o.t]))
+            self.o.update(oi, self.terms);
+            if self.o.b {
+                return Some((self.g.t, [self.s.t, self.p.t, self.o.t]));
+            }
         }
     }
 }
@@ -208,28 +210,30 @@ where
     type Item = GnQuad<'a, TI>;
 
     fn next(&mut self) -> Option<Self::Item> {
-        let [ai, bi, ci, di] = *self.abcd.next()?;
-        debug_assert!(graph_name_eq(self.terms.get_graph_name(ai), self.a));
+        // NB: a loop rather than a tail call, so that skipping any number of
+        // non-matching rows requires a constant amount of stack
+        loop {
+            let [ai, bi, ci, di] = *self.abcd.next()?;
+            debug_assert!(graph_name_eq(self.terms.get_graph_name(ai), self.a));
 
-        if bi != self.b.i {
-            self.b.update(bi, self.terms);
-        }
-        if !self.b.b {
-            return self.next();
-        }
+            if bi != self.b.i {
+                self.b.update(bi, self.terms);
+            }
+            if !self.b.b {
+                continue;
+            }
 
-        if ci != self.c.i {
-            self.c.update(ci, self.terms);
-        }
-        if !self.c.b {
-            return self.next();
-        }
+            if ci != self.c.i {
+                self.c.update(ci, self.terms);
+            }
+            if !self.c.b {
+                continue;
+            }
 
-        self.d.update(di, self.terms);
-        if !self.d.b {
-            self.next()
-        } else {
-            Some([self.a, self.b.t, self.c.t, self.d.t])
+            self.d.update(di, self.terms);
+            if self.d.b {
+                return Some([self.a, self.b.t, self.c.t, self.d.t]);
+            }
         }
     }
 }
@@ -317,22 +321,24 @@ where
     type Item = GnQuad<'a, TI>;
 
     fn next(&mut self) -> Option<Self::Item> {
-        let [ai, bi, ci, di] = *self.abcd.next()?;
-        debug_assert!(graph_name_eq(self.terms.get_graph_name(ai), self.a));
-        debug_assert!(graph_name_eq(self.terms.get_graph_name(bi), self.b));
+        // NB: a loop rather than a tail call, so that skipping any number of
+        // non-matching rows requires a constant amount of stack
+        loop {
+            let [ai, bi, ci, di] = *self.abcd.next()?;
+            debug_assert!(graph_name_eq(self.terms.get_graph_name(ai), self.a));
+            debug_assert!(graph_name_eq(self.terms.get_graph_name(bi), self.b));
 
-        if ci != self.c.i {
-            self.c.update(ci, self.terms);
-        }
-        if !self.c.b {
-            return self.next();
-        }
+            if ci != self.c.i {
+                self.c.update(ci, self.terms);
+            }
+            if !self.c.b {
+                continue;
+            }
 
-        self.d.update(di, self.terms);
-        if !self.d.b {
-            self.next()
-        } else {
-            Some([self.a, self.b, self.c.t, self.d.t])
+            self.d.update(di, self.terms);
+            if self.d.b {
+                return Some([self.a, self.b, self.c.t, self.d.t]);
+            }
         }
     }
 }
